@@ -233,5 +233,10 @@ def main(argv):
         return cmd_smoke(rest)
     if cmd == "sensitivity":
         return cmd_sensitivity(rest)
+    if cmd == "plan-digests":
+        from .world import World
+        for plan in json.load(open(rest[0])):
+            print("PLANDIGEST %s" % World(plan, []).run().digest())
+        return 0
     print("usage: check selftest smoke | determinism [n] [props...] | sensitivity [names...] | digests <prop> <n>")
     return 2
